@@ -4,10 +4,15 @@
   One-step theorems about the engine model (`hSignalStage`, the suspend branch of `processResult`), valid in ANY
   state — i.e. wherever in the schedule the signal arrives — plus "a SUSPENDED stage stays SUSPENDED under every
   message except its own signal, its own cancel and a jump re-arm".  The run-level count "resumes = effective
-  signals" is checked by the harness monitor on every schedule (harness/engine_suites.py `mon_c18`); the race
-  signal-vs-suspending-result at statement level is C07's CAS + retry (both handlers re-read and re-apply).
+  signals" is checked by the harness monitor on every schedule (harness/engine_suites.py `mon_c18`).
+
+  Second part (section `race`): the two-worker race signal handler vs. suspending task result INSIDE the handlers, at
+  read / compare-and-swap granularity (model `Stab.SignalRace`): for every window, both directions, any version and
+  mailbox content a persistent signal is never lost and never applied twice; a transient one is delivered or dropped,
+  never buffered; and the variant whose CAS guards a re-read instead of the read the decision was taken on DOES lose it.
 -/
 import Stab.Lemmas.EngineGood
+import Stab.Lemmas.SignalRace
 
 namespace Stab.Props.C18
 open Stab Stab.Engine
@@ -73,7 +78,7 @@ theorem suspended_stays_suspended (c : Cfg) (s : State) (row : Row) (i : Nat)
     simp only [hm, hStartWorkflow] at he
     (repeat' split at he) <;> simp at he
   | startStage j r =>
-    simp only [hm, hStartStage, startIfReady] at he
+    simp only [hm, hStartStage, hStartStageCore, startIfReady] at he
     (repeat' split at he) <;> simp at he
     all_goals (try (rcases he with he | he))
     all_goals (try (obtain ⟨rfl, rfl⟩ := he))
@@ -85,15 +90,16 @@ theorem suspended_stays_suspended (c : Cfg) (s : State) (row : Row) (i : Nat)
     exact hsusp
   | runTask j t =>
     simp only [hm, hRunTask] at he
-    (repeat' split at he) <;> simp at he
-    all_goals (try (obtain ⟨rfl, rfl⟩ := he; exact hsusp))
-    rename_i oc _
-    unfold processResult at he
-    cases oc <;> simp at he
-    all_goals (try (obtain ⟨rfl, rfl⟩ := he; exact hsusp))
-    all_goals (try ((repeat' split at he) <;> simp at he))
-    all_goals (try (obtain ⟨rfl, rfl⟩ := he))
-    all_goals simp_all
+    split at he
+    · rename_i txns hg
+      unfold runTaskGuard at hg
+      simp only [] at hg
+      (repeat' split at hg) <;> simp at hg <;> subst hg <;> simp at he
+    · unfold runTaskCommit processResult at he
+      simp only [] at he
+      (repeat' split at he) <;> simp at he
+      all_goals (try (obtain ⟨rfl, rfl⟩ := he))
+      all_goals simp_all
   | completeTask j t st =>
     simp only [hm, hCompleteTask] at he
     (repeat' split at he) <;> simp at he
@@ -131,5 +137,153 @@ theorem suspended_stays_suspended (c : Cfg) (s : State) (row : Row) (i : Nat)
     (repeat' split at he) <;> simp at he
     all_goals (obtain ⟨rfl, rfl⟩ := he)
     all_goals (first | exact absurd hm (h1 p) | simp_all)
+
+/-! ## The signal-vs-suspend race at read / CAS granularity (model `Stab.SignalRace`)
+
+  A schedule = which worker is A (`Dir`), after how many micro-steps `k` of A the other worker B runs to completion
+  (`k = 0`: B first; `k = 1`: between A's read and its next access; …; large `k`: A first), persistent / transient,
+  initial stage version `ver`, initial mailbox length `b0`, and `K` = how many of its first executions the task
+  answers with "suspend".  All of these are universally quantified below; only the finite part (direction, the
+  window as `0 | 1 | 2 | ≥ 3`, `K = 0 | ≥ 1`, `b0 = 0 | ≥ 1`) is split into cases. -/
+section race
+open Stab.SignalRace
+
+/-- evaluates `race` once the finite part of the schedule has been split into cases -/
+local macro "race_eval" : tactic =>
+  `(tactic| simp [race, iter_bound, iter_succ, iter_zero, iter_sig_done, iter_run_done, sigInit, maxRetries, innerRuns,
+      sigStep, runStep, SignalRace.cas, load, init, sigConflict, runConflict])
+
+/-- **A persistent signal racing with the suspending result is never lost and applied exactly once.**
+    Whatever the window and the direction: when both workers are done the stage is RUNNING with exactly one RunTask
+    queued, the task ran once, exactly one signal was applied (delivered to the SUSPENDED stage, or taken from the
+    mailbox by the suspending result), the mailbox holds the `b0` others, nothing was dropped, and exactly two writes
+    went through the version check. -/
+theorem race_persistent_signal_never_lost (K ver b0 k : Nat) (dir : Dir) (hK : 1 ≤ K) :
+    let r := race .cas K ⟨dir, k, true⟩ (init ver b0)
+    r.stage.status = .running ∧ r.stage.queued = 1 ∧ r.stage.execs = 1 ∧
+    r.stage.buffered = b0 ∧ r.stage.resumed + r.stage.consumed = 1 ∧ r.stage.dropped = 0 ∧ r.stage.version = ver + 2 := by
+  obtain ⟨K, rfl⟩ : ∃ K', K = K' + 1 := ⟨K - 1, by omega⟩
+  cases dir <;> rcases k with _ | _ | _ | k <;> rcases b0 with _ | b0 <;> race_eval
+
+example : (race .cas 1 ⟨.sigFirst, 1, true⟩ (init 3 0)).sig = .done .delivered 1 := by decide   -- CAS missed once, reloaded, delivered
+example : (race .cas 1 ⟨.runFirst, 2, true⟩ (init 3 0)).run = .done .consumed innerRuns := by decide   -- the suspend write missed, reloaded, consumed
+example : (race .cas 1 ⟨.sigFirst, 2, true⟩ (init 3 1)).stage.buffered = 1 := by decide
+
+/-- **Never "SUSPENDED with mail", never applied twice** — persistent or transient, suspending task or not: a stage
+    left SUSPENDED has an empty mailbox (and nothing queued); at most one signal was applied; every applied signal
+    pushed exactly one RunTask; the task ran exactly once. -/
+theorem race_never_suspended_with_mail (K ver b0 k : Nat) (dir : Dir) (p : Bool) :
+    let r := race .cas K ⟨dir, k, p⟩ (init ver b0)
+    (r.stage.status = .suspended → r.stage.buffered = 0 ∧ r.stage.queued = 0) ∧
+    r.stage.resumed + r.stage.consumed ≤ 1 ∧ r.stage.queued = r.stage.resumed + r.stage.consumed ∧ r.stage.execs = 1 := by
+  cases dir <;> cases p <;> rcases k with _ | _ | _ | k <;> rcases K with _ | K <;> rcases b0 with _ | b0 <;> race_eval
+
+example : (race .cas 1 ⟨.sigFirst, 1, false⟩ (init 0 0)).stage.status = .suspended := by decide   -- the premise is reachable
+
+/-- **Conservation**: each of the `b0 + 1` signals is in exactly one place (mailbox, consumed, delivered, dropped);
+    a persistent signal is never dropped; a transient signal is never buffered (it is delivered or dropped). -/
+theorem race_signal_conserved (K ver b0 k : Nat) (dir : Dir) (p : Bool) :
+    let r := race .cas K ⟨dir, k, p⟩ (init ver b0)
+    r.stage.buffered + r.stage.consumed + r.stage.resumed + r.stage.dropped = b0 + 1 ∧
+    (p = true → r.stage.dropped = 0) ∧
+    (p = false → r.stage.buffered + r.stage.consumed = b0 ∧ r.stage.resumed + r.stage.dropped = 1) := by
+  cases dir <;> cases p <;> rcases k with _ | _ | _ | k <;> rcases K with _ | K <;> rcases b0 with _ | b0 <;> race_eval
+  all_goals omega
+
+/-- If the task never suspends, the persistent signal sits in the mailbox (nothing applied, nothing dropped). -/
+theorem race_persistent_signal_buffered_if_task_never_suspends (ver b0 k : Nat) (dir : Dir) :
+    let r := race .cas 0 ⟨dir, k, true⟩ (init ver b0)
+    r.stage.status = .finished ∧ r.stage.buffered = b0 + 1 ∧ r.stage.resumed = 0 ∧ r.stage.consumed = 0 ∧
+    r.stage.queued = 0 ∧ r.stage.dropped = 0 := by
+  cases dir <;> rcases k with _ | _ | _ | k <;> race_eval
+
+/-- **Transient signal** (empty mailbox, suspending task): it resumes the stage exactly when the signal worker's read
+    comes after the suspend commit — RunTask worker entirely first (`sigFirst, k = 0`) or the signal worker injected
+    after the RunTask worker's CAS (`runFirst, 3 ≤ k`); in every other window it is dropped and the stage stays
+    SUSPENDED.  It is never buffered. -/
+theorem race_transient_signal_delivered_or_dropped (K ver k : Nat) (dir : Dir) (hK : 1 ≤ K) :
+    let r := race .cas K ⟨dir, k, false⟩ (init ver 0)
+    r.stage.buffered = 0 ∧
+    (if (dir = .sigFirst ∧ k = 0) ∨ (dir = .runFirst ∧ 3 ≤ k)
+     then r.stage.status = .running ∧ r.stage.resumed = 1 ∧ r.stage.queued = 1 ∧ r.stage.dropped = 0
+     else r.stage.status = .suspended ∧ r.stage.resumed = 0 ∧ r.stage.queued = 0 ∧ r.stage.dropped = 1) := by
+  obtain ⟨K, rfl⟩ : ∃ K', K = K' + 1 := ⟨K - 1, by omega⟩
+  cases dir <;> rcases k with _ | _ | _ | k <;> race_eval
+
+example : (race .cas 1 ⟨.runFirst, 3, false⟩ (init 0 0)).sig = .done .delivered 0 := by decide
+example : (race .cas 1 ⟨.runFirst, 2, false⟩ (init 0 0)).sig = .done .dropped 0 := by decide
+
+/-- Neither worker exhausts `retry_on_concurrency_error` in a two-worker race: both end with a proper outcome, the
+    signal worker after at most one rolled-back transaction, the RunTask worker after at most one conflict
+    (= `innerRuns` rolled-back attempts of `execute_atomic`); the RunTask worker never finds its task not RUNNING. -/
+theorem race_workers_finish (K ver b0 k : Nat) (dir : Dir) (p : Bool) :
+    let r := race .cas K ⟨dir, k, p⟩ (init ver b0)
+    (match r.sig with
+     | .done o rb => o ≠ .raised ∧ rb ≤ 1
+     | _ => False) ∧
+    (match r.run with
+     | .done o rb => o ≠ .raised ∧ o ≠ .ignored ∧ o ≠ .stale ∧ rb ≤ innerRuns
+     | _ => False) := by
+  cases dir <;> cases p <;> rcases k with _ | _ | _ | k <;> rcases K with _ | K <;> rcases b0 with _ | b0 <;> race_eval
+
+/-- **What the version check protects.**  In the variant whose buffering branch re-reads the stage before writing
+    (`Variant.reread`: the CAS guards the re-read, the decision was taken on the first read), the window "between the
+    read and the write" loses the signal, for every initial version: the stage ends SUSPENDED with the signal in its
+    mailbox, nothing queued, the task ran once, no conflict was ever detected, and draining changes nothing. -/
+theorem reread_variant_loses_signal (ver : Nat) :
+    let r := race .reread 1 ⟨.sigFirst, 1, true⟩ (init ver 0)
+    r.stage.status = .suspended ∧ r.stage.buffered = 1 ∧ r.stage.queued = 0 ∧ r.stage.execs = 1 ∧
+    r.sig = .done .buffered 0 ∧ r.run = .done .suspended 0 ∧ quiesce 1 64 r.stage = r.stage := by
+  race_eval
+  simp [quiesce]
+
+/-- … so "a SUSPENDED stage has an empty mailbox" (true of the real handler, `race_never_suspended_with_mail`) is FALSE of
+    that variant: the negation, with the witness `K = 1, ver = 0, b0 = 0, sigFirst, k = 1`. -/
+theorem reread_variant_not_safe :
+    ¬ ∀ (K ver b0 k : Nat) (dir : Dir), 1 ≤ K →
+        (race .reread K ⟨dir, k, true⟩ (init ver b0)).stage.status = .suspended →
+        (race .reread K ⟨dir, k, true⟩ (init ver b0)).stage.buffered = 0 := by
+  intro h
+  have := h 1 0 0 1 .sigFirst (by omega)
+  revert this
+  race_eval
+
+/-- … and that window is the only one: everywhere else the variant behaves like the real handler (the model's windows
+    are exact, the defect needs precisely "B between A's read and A's re-read"). -/
+theorem reread_variant_safe_elsewhere (K ver b0 k : Nat) (dir : Dir) (hK : 1 ≤ K) (hk : ¬ (dir = .sigFirst ∧ k = 1)) :
+    let r := race .reread K ⟨dir, k, true⟩ (init ver b0)
+    r.stage.status = .running ∧ r.stage.queued = 1 ∧ r.stage.buffered = b0 ∧ r.stage.resumed + r.stage.consumed = 1 := by
+  obtain ⟨K, rfl⟩ : ∃ K', K = K' + 1 := ⟨K - 1, by omega⟩
+  cases dir <;> rcases k with _ | _ | _ | _ | k <;> rcases b0 with _ | b0 <;> simp at hk <;> race_eval
+
+example : ¬ (Dir.sigFirst = .sigFirst ∧ 2 = 1) := by decide
+
+/-- **After the race, one resume per signal.**  Deliver the queued RunTasks one at a time (`quiesce`, any fuel
+    `≥ b0 + 1`): the task is executed once more per applied signal (`execs = 1 + resumed + consumed`); if the `b0 + 1`
+    signals cover the task's `K` suspensions the stage finishes after execution `K + 1` with `b0 + 1 - K` signals left
+    in the mailbox, otherwise every signal was used (`b0 + 2` executions) and the stage is SUSPENDED with an empty
+    mailbox and an empty queue. -/
+theorem race_then_drain_resumes_once_per_signal (K ver b0 k n : Nat) (dir : Dir) (hK : 1 ≤ K) (hn : b0 + 1 ≤ n) :
+    let f := quiesce K n (race .cas K ⟨dir, k, true⟩ (init ver b0)).stage
+    f.queued = 0 ∧ f.execs = 1 + f.resumed + f.consumed ∧
+    (if K ≤ b0 + 1 then f.status = .finished ∧ f.execs = K + 1 ∧ f.buffered = b0 + 1 - K
+     else f.status = .suspended ∧ f.execs = b0 + 2 ∧ f.buffered = 0) := by
+  have h := race_persistent_signal_never_lost K ver b0 k dir hK
+  simp only [] at h
+  obtain ⟨h1, h2, h3, h4, h5, -, -⟩ := h
+  have := quiesce_spec K b0 n _ h1 h2 h4 (by omega) (by omega) hn
+  simp only [h3] at this
+  intro f
+  refine ⟨this.1, this.2.1, ?_⟩
+  have h6 := this.2.2
+  by_cases hc : K ≤ b0 + 1
+  · rw [if_pos (by omega)] at h6; rw [if_pos hc]; exact ⟨h6.1, h6.2.1, by rw [h6.2.2]; omega⟩
+  · rw [if_neg (by omega)] at h6; rw [if_neg hc]; exact ⟨h6.1, by rw [h6.2.1]; omega, h6.2.2⟩
+
+example : (quiesce 1 4 (race .cas 1 ⟨.sigFirst, 1, true⟩ (init 3 0)).stage).execs = 2 := by decide
+example : (quiesce 2 4 (race .cas 2 ⟨.sigFirst, 1, true⟩ (init 3 0)).stage).status = .suspended := by decide
+example : (quiesce 2 4 (race .cas 2 ⟨.runFirst, 2, true⟩ (init 3 1)).stage).execs = 3 := by decide
+
+end race
 
 end Stab.Props.C18
